@@ -126,6 +126,9 @@ impl Prop for C06 {
     fn id(&self) -> &'static str {
         "C06"
     }
+    fn canary(&self) -> bool {
+        true
+    }
     fn rule(&self) -> String {
         "cases = 1-2 text resultsets of 1-12 columns x 0-20 rows answered to a COM_QUERY; every cell drawn from all ToMysqlValue implementors (u8..i64, usize, isize boundary-biased over full ranges; all finite f32/f64 bit patterns incl. subnormals and -0; String/&str/Vec<u8>/&[u8] with lengths over 0-250, 251-65535, >=65536 and contents incl. 0xFB, 0xFF, \"NULL\", \"\"; NaiveDate years 0-9999; NaiveDateTime and Duration with/without microseconds; mysql_common::Value of every variant), passed by value, by reference, in Option (Some/None), via write_col, write_row(values) and write_row(&values); one case in 2500 is a row of 17-70 MB whose 2-6 cells (byte strings around 1x, 2x, 3x the 2^24-1-byte packet size or filling up to +-12 bytes of a packet boundary; integers, short strings and NULLs before, between and after them) are laid out against the packet boundaries of the row message. The client's handshake response announces a generated max_packet_size (0, 1 KiB ... 1 GiB, random) and character set (latin1, utf8, utf8mb4, binary, random), which must not matter. Oracle: round trip through the reference text-row decoder and the canonical text grammar of the intended type (floats bit-for-bit), NULL vs \"\" vs \"NULL\" kept apart; second opinion from mysql_common's from_value. Non-trivial = a row with >= 2 different Rust types, or a string >= 251 bytes, or a temporal value with microseconds.".into()
     }
